@@ -55,10 +55,9 @@ func (j *RemoveUnusedImportApp) Analysis() []models2.JFullIdentifier {
 
 func (j *RemoveUnusedImportApp) Refactoring(resultNodes []models2.JFullIdentifier) {
 	for _, node := range resultNodes {
-		if node.Name != "" {
-			errorLines := BuildErrorLines(node)
-			removeImportByLines(node.FilePath, errorLines)
-		}
+		// every file, also those whose top-level type is an enum, an annotation type or a record (no node.Name)
+		errorLines := BuildErrorLines(node)
+		removeImportByLines(node.FilePath, errorLines)
 	}
 }
 
